@@ -383,7 +383,9 @@ theorem stepS {st st' : State} {i : Inc} (h : InvS st i) (hs : step st 0 = .ok s
         simp only [step, htn, htodo, hpc, if_false, opRows] at hs
         split at hs
         · cases hs; exact ⟨i, invS_finish h htodo⟩
-        · cases hs; exact ⟨i, invS_pc h ⟨Nat.lt_succ_self _, h.timeNow⟩⟩
+        · split at hs
+          · cases hs; exact ⟨i, invS_finish h htodo⟩
+          · cases hs; exact ⟨i, invS_pc h ⟨Nat.lt_succ_self _, h.timeNow⟩⟩
       | afterTime τ =>
         simp only [step, htn, htodo, hpc, if_false, opRows] at hs
         cases hs
